@@ -12,5 +12,7 @@ if [ "$demo" != "-" ]; then
 fi
 (cd /verif && ./check "$prop" "$tier" 2>&1 | grep -E "^(OK|VIOLATION|KNOWN|INFRA)" | cut -c1-200)
 git checkout -- . 
+# evidence written while a seeded change was applied must not stay in /verif/evidence
+(cd /verif && git checkout -- evidence/"$prop".json 2>/dev/null)
 # regenerate Gen from the clean tree so that the lake cache is not left on mutant formulas
 (cd /verif && /venv/bin/python -m harness.translate >/dev/null 2>&1)
